@@ -74,7 +74,40 @@ def theory_axioms(formulas):
     ax.extend(cnt_unfold_axioms(formulas))
     ax.extend(bag_heap_axioms(formulas))
     ax.extend(inf_axioms(formulas))
+    ax.extend(sum_axioms(formulas))
     return ax
+
+
+def sum_axioms(formulas):
+    """Sum(a, n) = a[0] + .. + a[n-1]: Sum(a, n) = 0 for n <= 0; unfolding Sum(a, k+1) = Sum(a, k) + a[k] for the ground terms whose
+    length is syntactically k+1 (and for small numeral lengths)."""
+    from .nplib import SUM
+    out = []
+    for app in collect_apps(formulas, "Sum"):
+        a, n = app.arg(0), app.arg(1)
+        if not (_is_ground(a) and _is_ground(n)):
+            continue
+        out.append(z3.Implies(n <= 0, app == 0))
+        nn = z3.simplify(n)
+        if z3.is_int_value(nn) and 0 < nn.as_long() <= 12:
+            out.append(app == sum((z3.Select(a, k) for k in range(nn.as_long())), z3.RealVal(0)))
+        elif z3.is_add(n) and n.num_args() == 2:
+            c0, c1 = n.arg(0), n.arg(1)
+            k = c1 if z3.is_int_value(c0) and c0.as_long() == 1 else c0 if z3.is_int_value(c1) and c1.as_long() == 1 else None
+            if k is not None:
+                out.append(z3.Implies(k >= 0, app == SUM(a, k) + z3.Select(a, k)))
+    # congruence: equal summands on [0, n) give equal sums (the antecedent is a quantified hypothesis the solver has to establish)
+    apps = [x for x in collect_apps(formulas, "Sum") if _is_ground(x.arg(0)) and _is_ground(x.arg(1))]
+    done = set()
+    for x in apps:
+        for y in apps:
+            if x.get_id() >= y.get_id() or (x.get_id(), y.get_id()) in done or x.arg(0).get_id() == y.arg(0).get_id():
+                continue
+            done.add((x.get_id(), y.get_id()))
+            i = z3.Int("sc!ax")
+            same = ty.FA([i], z3.Implies(z3.And(i >= 0, i < x.arg(1)), z3.Select(x.arg(0), i) == z3.Select(y.arg(0), i)))
+            out.append(z3.Implies(z3.And(x.arg(1) == y.arg(1), same), x == y))
+    return out
 
 
 def inf_axioms(formulas):
@@ -93,10 +126,10 @@ def bag_heap_axioms(formulas):
         seen.add(key)
         x = z3.Const("cx!ax", H.R)
         i = z3.Int("ci!ax")
-        out.append(z3.ForAll([x], z3.And(H.CNT(a, n, x) >= 0, z3.Implies(n <= 0, H.CNT(a, n, x) == 0)), patterns=[H.CNT(a, n, x)]))
-        out.append(z3.ForAll([x], z3.Implies(H.CNT(a, n, x) > 0, z3.And(H.WIT(a, n, x) >= 0, H.WIT(a, n, x) < n,
+        out.append(ty.FA([x], z3.And(H.CNT(a, n, x) >= 0, z3.Implies(n <= 0, H.CNT(a, n, x) == 0)), patterns=[H.CNT(a, n, x)]))
+        out.append(ty.FA([x], z3.Implies(H.CNT(a, n, x) > 0, z3.And(H.WIT(a, n, x) >= 0, H.WIT(a, n, x) < n,
                                                                          z3.Select(a, H.WIT(a, n, x)) == x)), patterns=[H.CNT(a, n, x)]))
-        out.append(z3.ForAll([i], z3.Implies(z3.And(i >= 0, i < n), H.CNT(a, n, z3.Select(a, i)) > 0), patterns=[z3.Select(a, i)]))
+        out.append(ty.FA([i], z3.Implies(z3.And(i >= 0, i < n), H.CNT(a, n, z3.Select(a, i)) > 0), patterns=[z3.Select(a, i)]))
     for app in collect_apps(formulas, "Heap"):
         ts, rf, n, P = app.arg(0), app.arg(1), app.arg(2), app.arg(3)
         key = ("H", app.get_id())
@@ -105,7 +138,7 @@ def bag_heap_axioms(formulas):
         seen.add(key)
         i = z3.Int("hi!ax")
         out.append(z3.Implies(z3.And(app, n > 0),
-                              z3.ForAll([i], z3.Implies(z3.And(i >= 0, i < n),
+                              ty.FA([i], z3.Implies(z3.And(i >= 0, i < n),
                                                         z3.Not(H.lt(P, z3.Select(ts, i), z3.Select(rf, i), z3.Select(ts, 0), z3.Select(rf, 0)))),
                                         patterns=[z3.Select(rf, i)])))
         out.append(z3.Implies(n <= 0, app))
@@ -120,7 +153,7 @@ def bag_heap_axioms(formulas):
                 done.add((a.get_id(), b.get_id()))
                 i = z3.Int("hf!ax")
                 rf, n = a.arg(1), a.arg(2)
-                same = z3.ForAll([i], z3.Implies(z3.And(i >= 0, i < n),
+                same = ty.FA([i], z3.Implies(z3.And(i >= 0, i < n),
                                                  z3.Select(a.arg(3), z3.Select(rf, i)) == z3.Select(b.arg(3), z3.Select(rf, i))))
                 out.append(z3.Implies(same, a == b))
     return out
@@ -141,7 +174,7 @@ def cnt_unfold_axioms(formulas):
                     out.append(z3.Implies(k >= 0, app == CNT(a, k, x) + z3.If(z3.Select(a, k) == x, 1, 0)))
                 else:
                     y = z3.Const("cu!ax", R)
-                    out.append(z3.ForAll([y], z3.Implies(k >= 0, CNT(a, n, y) == CNT(a, k, y) + z3.If(z3.Select(a, k) == y, 1, 0)),
+                    out.append(ty.FA([y], z3.Implies(k >= 0, CNT(a, n, y) == CNT(a, k, y) + z3.If(z3.Select(a, k) == y, 1, 0)),
                                          patterns=[CNT(a, n, y)]))
     return out
 
@@ -610,7 +643,7 @@ def seq_remove_value(ex, st, seq: ty.SeqV, c):
     p = z3.Int(ty.fresh_name("rmpos"))
     st.assume(z3.And(p >= 0, p < seq.len, z3.Select(a, p) == c))
     j = z3.Int(ty.fresh_name("j"))
-    st.assume(z3.ForAll([j], z3.Implies(z3.And(j >= 0, j < p), z3.Select(a, j) != c)))
+    st.assume(ty.FA([j], z3.Implies(z3.And(j >= 0, j < p), z3.Select(a, j) != c)))
     i = z3.Int(ty.fresh_name("i"))
     return ty.SeqV(seq.elem, [z3.Lambda([i], z3.If(i < p, z3.Select(a, i), z3.Select(a, i + 1)))], seq.len - 1)
 
@@ -693,6 +726,8 @@ def b_len(ex, st, args, kwargs, node):
         raise _U("len of unordered symbolic map", node)
     if isinstance(v, ty.MatV):
         return _out(v.rows, st)
+    if isinstance(v, SymSet):
+        return _out(symset_card(ex, st, v, node), st)
     if isinstance(v, ty.ObjV):
         m = ex.ix.lookup_method(v.cls, "__len__")
         if m is not None:
@@ -955,7 +990,7 @@ def _anyall(ex, st, args, node, is_any):
         i = z3.Int(ty.fresh_name("qi"))
         body = z3.Select(v.arrs[0], i)
         rng = z3.And(i >= 0, i < v.len)
-        return _out(z3.Exists([i], z3.And(rng, body)) if is_any else z3.ForAll([i], z3.Implies(rng, body)), st)
+        return _out(z3.Exists([i], z3.And(rng, body)) if is_any else ty.FA([i], z3.Implies(rng, body)), st)
     raise _U("any/all of symbolic", node)
 
 
@@ -1240,8 +1275,20 @@ def m_np_array(ex, st, args, kwargs, node):
     return nplib.np_array(ex, st, args, kwargs, node)
 
 
+def _nplib(name):
+    def f(ex, st, args, kwargs, node):
+        from . import nplib
+        return getattr(nplib, name)(ex, st, args, kwargs, node)
+    return f
+
+
 MODULE_FUNCS = {
     "numpy.array": m_np_array,
+    "numpy.zeros": _nplib("np_zeros"),
+    "numpy.sum": _nplib("np_sum"),
+    "numpy.tile": _nplib("np_tile"),
+    "numpy.argmax": _nplib("np_argmax"),
+    "numpy.unravel_index": _nplib("np_unravel_index"),
     "warnings.warn": m_warn,
     "numpy.exp": m_np_exp,
     "numpy.random.normal": m_np_random_normal,
@@ -1270,11 +1317,30 @@ MUTATORS = {"append", "add", "remove", "pop", "popleft", "popitem", "move_to_end
 class SymSet:
     """A set of scalars of one sort, as its membership array."""
 
-    def __init__(self, elem, mem):
-        self.elem, self.mem = elem, mem
+    def __init__(self, elem, mem, src=None):
+        self.elem, self.mem, self.src = elem, mem, src       # src: the sequence the set was built from (for len / pop)
 
     def has(self, x):
         return z3.Select(self.mem, x)
+
+
+def symset_card(ex, st, sset, node):
+    """len(set(seq)): an integer characterised only as far as the verified code needs it:
+    >= 0;  = 0 iff the source is empty;  <= 1 iff all source elements are equal;  <= len(source)."""
+    if sset.src is None:
+        raise _U("len() of a symbolic set without a source sequence", node)
+    if getattr(sset, "card", None) is not None:
+        return sset.card
+    v = sset.src
+    (a,) = v.arrs
+    c = z3.Int(ty.fresh_name("card"))
+    i, j = z3.Int(ty.fresh_name("ci")), z3.Int(ty.fresh_name("cj"))
+    all_eq = ty.FA([i, j], z3.Implies(z3.And(i >= 0, i < v.len, j >= 0, j < v.len), z3.Select(a, i) == z3.Select(a, j)),
+                       patterns=[z3.MultiPattern(z3.Select(a, i), z3.Select(a, j))])
+    st.assume(z3.And(c >= 0, c <= z3.If(v.len >= 0, v.len, 0), (c == 0) == (v.len <= 0)))
+    st.assume((c <= 1) == all_eq)
+    sset.card = c
+    return c
 
 
 def is_symbolic_container(v):
@@ -1320,6 +1386,16 @@ def mutate(ex, st, recv, meth, args, kwargs, node):
                     out.append((seq_remove_value(ex, s2, recv, c), None, s2, None))
             return out
     if isinstance(recv, SymSet):
+        if meth == "pop" and recv.src is not None:
+            out = []
+            for taken, s2 in ex.branch(st, recv.src.len > 0, f"nonempty@L{node.lineno}"):
+                if not taken:
+                    out.append((recv, None, s2, ExcV("KeyError", node.lineno)))
+                    continue
+                w = z3.Int(ty.fresh_name("popw"))
+                s2.assume(z3.And(w >= 0, w < recv.src.len))
+                out.append((SymSet(recv.elem, z3.Const(ty.fresh_name("set"), recv.mem.sort())), recv.src.at(w), s2, None))
+            return out
         if meth == "add":
             (c,) = ty.pack(recv.elem, ex.coerce(recv.elem, args[0], node))
             return [(SymSet(recv.elem, z3.Store(recv.mem, c, z3.BoolVal(True))), None, st, None)]
